@@ -1629,8 +1629,11 @@ def mutex_cancel_arm_rules(ctx, rule="R-EXIT"):
     f = ctx.fn(rule, ML, "mutex/cancel-panic-only-if-enabled")
     if f is None: return
     DIS = r"may::cancel::CancelImpl::is_disabled"
-    enabled = lambda a: a.kind == "truth" and a.truth is False and origin_reaches_call(f, a.origin, DIS)
-    disabled = lambda a: a.kind == "truth" and a.truth is True and origin_reaches_call(f, a.origin, DIS)
+    NOCO = call_false(r"may::coroutine_impl::is_coroutine")
+    enabled = lambda a: (a.kind == "truth" and a.truth is False and origin_reaches_call(f, a.origin, DIS)) or \
+                        variant_implied_by(ctx, f, a, any_of(call_false(DIS), NOCO))
+    disabled = lambda a: (a.kind == "truth" and a.truth is True and origin_reaches_call(f, a.origin, DIS)) or \
+                         variant_implied_by(ctx, f, a, call_true(DIS))
     TRG = Call(r"may::cancel::trigger_cancel_panic", transitive=False)
     if not ctx.edges(f, enabled) or not ctx.an.sites(f, TRG, "must"):
         ctx.missing(rule, ML, "mutex/cancel-panic-only-if-enabled", "`is_disabled()` false edges=%d trigger_cancel_panic sites=%d" % (len(ctx.edges(f, enabled)), len(ctx.an.sites(f, TRG, "must")))); return
@@ -2268,8 +2271,18 @@ def drops_do_not_block_unmasked(ctx, rule="R-EXIT"):
     """every `Drop::drop` of may that can reach a park (Blocker / SyncBlocker / FastBlocker park, Park::park_timeout) reaches it only behind
     CancelDisableGuard::new: a Cancel panic out of a destructor skips the rest of the release (RwLockReadGuard::drop left the lock read
     locked for ever - finding F23; the scoped join and the cqueue drain are masked for the same reason - F6)."""
-    PARK = Call(r"may::sync::blocking::(SyncBlocker|Blocker|FastBlocker)::park|may::park::Park::park_timeout")
-    GUARD = Call(r"may::cancel::CancelDisableGuard::new", transitive=False)
+    PARK = Call(r"may::sync::blocking::(SyncBlocker|Blocker|FastBlocker)::park|may::park::Park::park_timeout|may::yield_now::yield_now")
+    def _guard_site(f, pt, t):
+        nm = callee_name(t) or ""
+        if nm == "may::cancel::CancelDisableGuard::new": return True
+        # `(!thread::panicking()).then(CancelDisableGuard::new)`: masked whenever a Cancel panic could be raised at all (check_cancel never
+        # panics while the thread is unwinding)
+        if nm.endswith("bool::then") and len(t["args"]) == 2:
+            c = simplify(trace_operand(f, t["args"][0])); g = simplify(trace_operand(f, t["args"][1]))
+            return (g[0] == "fnitem" and g[1] == "may::cancel::CancelDisableGuard::new" and c[0] == "un" and c[1] == "Not"
+                    and is_call_result(r"std::thread::panicking")(simplify(c[2])))
+        return False
+    GUARD = Call(r"may::cancel::CancelDisableGuard::new|core::bool::then|(std|core)::bool::.*then", transitive=False, where=_guard_site)
     an = ctx.an
     memo = {}
     # exception table (one field, one reason): a lock that cannot be contended where a destructor takes it, so its lock() never parks there
@@ -2312,3 +2325,175 @@ def drops_do_not_block_unmasked(ctx, rule="R-EXIT"):
                (k, u[0].id), u[0].where(u[1]) if u else f.where())
     if n < 3:
         ctx.missing(rule, "Drop impls of may", "drop-not-a-cancellation-point", "expected >= 3 Drop impls that can block (RwLockReadGuard, Scope, Cqueue), found %d" % n)
+
+
+def variant_implied_by(ctx, f, a, pos_pred):
+    """a: a variant atom on a local whose alternatives are field-less enum values (`let mode = if c { Mode::A } else { Mode::B }; ... match mode`).
+    True when every assignment of that variant to the local lies behind an edge satisfying pos_pred, i.e. taking the variant's arm implies that such
+    an edge was passed (the representation of a decision as a small enum instead of a bool)."""
+    if a.kind != "variant": return False
+    o = simplify(a.origin)
+    if o[0] not in ("phi", "local"): return False
+    l = o[1]
+    defs = []
+    for pt in f.points():
+        if f.is_term(pt): continue
+        n = f.node(pt)
+        if n.get("s") == "=" and not n["l"]["p"] and n["l"]["l"] == l:
+            rv = n["rv"]
+            if rv["r"] == "agg" and rv.get("ak") == "adt" and not rv["ops"]:
+                if rv.get("var") == a.name: defs.append(pt)
+            elif rv["r"] == "use":
+                src = simplify(trace_operand(f, rv["o"]))
+                if src[0] == "agg" and src[2] == a.name and not (src[3] or ()): defs.append(pt)
+                elif src[0] in ("phi", "local"):
+                    return False          # copies of other locals: not handled, fail closed
+    if not defs: return False
+    blk, good = ctx.edge_blocker(f, pos_pred)
+    if not good: return False
+    r = ctx.an.reach(f, [Point(0, 0)], blocked_edges=blk)
+    return not any(d in r for d in defs)
+
+
+# ------------------------------------------------------------------------------------------------
+# "the recorded deadline has passed" as an edge predicate, whichever way it is written
+
+def deadline_passed_pred(ctx, f):
+    """edge predicate: `now() >= d` / `d <= now()` directly, or the true edge of `opt.is_some_and(|d| now() >= d)` (also
+    `map_or(false, ..)` / `is_some_and` with a named fn): the closure's result is that comparison."""
+    NOW = r"may::timeout_list::now"
+    def is_ge(o):
+        o = simplify(o)
+        return o[0] == "bin" and ((o[1] == "Ge" and is_call_result(NOW)(o[2])) or (o[1] == "Le" and is_call_result(NOW)(o[3])))
+    good_sites = set()
+    for pt in f.points():
+        if not f.is_term(pt): continue
+        t = f.node(pt)
+        if t["t"] != "call" or not re.search(r"option::Option::(is_some_and|map_or|is_none_or)$", callee_name(t) or ""): continue
+        if (callee_name(t) or "").endswith("is_none_or"): continue
+        for cid in closure_args(f, t):
+            c = ctx.prog.fn(norm(cid))
+            if c is not None and is_ge(trace_local(c, 0)): good_sites.add(pt.bb)
+    def pred(a):
+        if a.kind == "cmp":
+            return (a.op == "Ge" and is_call_result(NOW)(a.a)) or (a.op == "Le" and is_call_result(NOW)(a.b))
+        if a.kind in ("truth", "call") and getattr(a, "truth", None) is True:
+            o = simplify(a.origin)
+            return o[0] == "call" and o[1] in good_sites
+        return False
+    return pred
+
+
+# ------------------------------------------------------------------------------------------------
+# F28: passing a permit / notification / lock on from an abandoned waiter must not recurse
+
+def handoff_not_recursive(ctx, module, rule="R-NEVER"):
+    """no function of `module` (a may::sync primitive) can reach itself through direct calls and the closures it hands to combinators.
+    The release operations (post, notify_one, fire, unlock) skip a waiter that gave up (timeout / cancel) by redoing the operation; done by
+    calling themselves, the depth of ONE release is the number of abandoned blockers at the head of the queue - every wait_timeout that
+    expires leaves one, so it is unbounded, and a coroutine stack (32 KiB by default) overflows after a few hundred (finding F28)."""
+    an = ctx.an
+    fns = {k: g for k, g in ctx.prog.fns.items() if k.startswith(module + "::") or k.startswith("<" + module + "::")}
+    succ = {}
+    for k, g in fns.items():
+        out = set()
+        for pt in g.points():
+            if not g.is_term(pt) or g.node(pt)["t"] not in ("call", "tailcall") or g.is_cleanup(pt.bb): continue
+            for h, cert in an.local_targets(g, pt):
+                if cert == "maybe" and "{closure" not in h.id: continue      # unresolved trait dispatch (Default::default, fmt): not a call of this module
+                if h.id in fns: out.add(h.id)
+        succ[k] = out
+    def reaches_self(k):
+        seen = set(); st = list(succ[k])
+        while st:
+            x = st.pop()
+            if x == k: return True
+            if x in seen: continue
+            seen.add(x); st += list(succ.get(x, ()))
+        return False
+    n = 0
+    for k in sorted(fns):
+        if "{closure" in k: continue
+        n += 1
+        rec = reaches_self(k)
+        if not rec and not any(w in k.rsplit("::", 1)[-1] for w in ("post", "notify", "fire", "unlock", "wake", "unpark", "release", "drop")):
+            continue            # only the release side is reported one by one (the rest is covered by the count below)
+        ctx.fns_touched.add(k)
+        ctx.ob(rule, k, "handoff-not-recursive", not rec, "%s cannot reach itself: the work of one release is bounded by a loop, not by the stack" % k if not rec else
+               "%s reaches itself (it skips a waiter that gave up by calling itself again): one release recurses once per abandoned blocker at the head of the queue; "
+               "a few hundred timed out waits overflow the coroutine stack in the middle of the release" % k, fns[k].where())
+    if n < 3:
+        ctx.missing(rule, module, "handoff-not-recursive", "expected the functions of %s, found %d" % (module, n))
+
+
+# ------------------------------------------------------------------------------------------------
+# F29: the time slept until the next timer is relative to a clock sample taken after the expired timers' handlers ran
+
+def _time_samples(f, o, out, depth=0, seen=None):
+    """points of f at which the value o (in f) samples the clock: `now()` calls in its dataflow (through every call's arguments), and
+    combinator calls whose closure calls now()"""
+    if depth > 12: return
+    seen = seen if seen is not None else set()
+    o = simplify(o)
+    if o in seen: return
+    seen.add(o)
+    k = o[0]
+    if k == "call":
+        t = f.term(o[1])
+        if re.fullmatch(r"may::timeout_list::now|std::time::Instant::(now|elapsed)", o[2] or ""): out.add(Point(o[1], len(f.blocks[o[1]]["st"])))
+        for cid in closure_args(f, t):
+            c = f.prog.fn(norm(cid))
+            if c is not None and any(c.is_term(q) and c.node(q)["t"] == "call" and re.fullmatch(r"may::timeout_list::now|std::time::Instant::(now|elapsed)", callee_name(c.node(q)) or "") for q in c.points()):
+                out.add(Point(o[1], len(f.blocks[o[1]]["st"])))
+        for a in t.get("args", ()): _time_samples(f, trace_operand(f, a), out, depth + 1, seen)
+    elif k == "phi":
+        for a in o[2]: _time_samples(f, a, out, depth + 1, seen)
+    elif k == "agg":
+        for a in (o[3] or ()): _time_samples(f, a, out, depth + 1, seen)
+    elif k in ("field", "cast", "ref", "deref", "downcast", "discr", "clone"): _time_samples(f, o[1], out, depth + 1, seen)
+    elif k == "un": _time_samples(f, o[2], out, depth + 1, seen)
+    elif k == "bin":
+        _time_samples(f, o[2], out, depth + 1, seen); _time_samples(f, o[3], out, depth + 1, seen)
+
+def sleep_relative_to_fresh_clock(ctx, rule="R-ORDER"):
+    """schedule_timer(now, handler) returns the time to the next timer relative to the `now` it was given - but it runs the handlers of the
+    expired timers, which resume coroutines in place and can take arbitrarily long. Whoever sleeps on that value (the timer thread's
+    park_timeout, the selector's wait through the value select() returns) must correct it by a clock sample taken AFTER everything
+    that runs coroutines; otherwise a timer that came due meanwhile fires late by that run time."""
+    an = ctx.an
+    TL = "may::timeout_list"
+    SCH = Call(re.escape(TL) + r"::TimeOutList::schedule_timer", transitive=False)
+    RUN = Call(r"may::scheduler::Scheduler::run_queued_tasks", transitive=False)
+    n = 0
+    # the timer thread
+    fid = TL + "::TimerThread::run"
+    f = ctx.fn(rule, fid, "sleep/relative-to-fresh-clock")
+    if f is not None:
+        parks = an.sites(f, Call(r"std::thread::park_timeout", transitive=False), "must")
+        if not parks: ctx.missing(rule, fid, "sleep/relative-to-fresh-clock", "no thread::park_timeout in TimerThread::run")
+        sch = an.sites(f, SCH, "must")
+        for pt in sorted(parks):
+            n += 1
+            smp = set(); _time_samples(f, trace_operand(f, f.node(pt)["args"][0]), smp)
+            # fresh: the park is reached from the sample without running the handlers (schedule_timer) in between
+            ok = any(pt in an.reach(f, an.after(f, q), blocked=sch) for q in smp)
+            ctx.ob(rule, fid, "sleep/relative-to-fresh-clock", ok, "the timer thread parks for the time to the next timer minus what elapsed while the handlers ran" if ok else
+                   "the timer thread parks for a time that is relative to the clock sample taken BEFORE the expired timers' handlers ran (they resume coroutines in place): "
+                   "a timer that came due while they ran waits that whole stale time again", f.where(pt))
+    # the selectors (io timers)
+    for k, g in sorted(ctx.prog.fns.items()):
+        if not re.fullmatch(r"may::io::sys::\w+::Selector::select", k): continue
+        sch = an.sites(g, SCH, "must")
+        if not sch: continue
+        n += 1
+        ctx.fns_touched.add(k)
+        runs = set(x for x in an.sites(g, RUN, "must"))
+        late_runs = set(r0 for r0 in runs if r0 in an.reach(g, [q for s0 in sch for q in an.after(g, s0)]))
+        smp = set(); _time_samples(g, trace_local(g, 0), smp)
+        rets = set(g.ret_points())
+        ok = any(rets & an.reach(g, an.after(g, q), blocked=sch | runs) for q in smp)
+        ctx.ob(rule, k, "sleep/relative-to-fresh-clock", ok, "select() returns the time to the next io timer corrected by a clock sample taken after the timeout handler (and the local queue) ran" if ok else
+               "select() returns the time to the next io timer relative to the clock sample taken BEFORE the timeout handler%s ran: the event loop then sleeps that stale time, "
+               "an io timeout that came due meanwhile fires late by the run time" % (" and the local queue" if late_runs else ""), g.where(sorted(sch)[0]))
+    if n < 2:
+        ctx.missing(rule, TL, "sleep/relative-to-fresh-clock", "expected the timer thread and a selector, found %d instance(s)" % n)
